@@ -44,6 +44,7 @@ type vfPairCfg struct {
 	HorizonS                int
 	StrAddr                 bool // use non-UDP address types (string comparison paths)
 	Wire                    bool // decode every datagram with the independent decoder (C09) and check sizes (C10)
+	EncBack                 int  // white-box: the client's FEC encoder starts this many groups before its wrap value (reachable after ~2^32 packets)
 	Dup                     int  // SetDUP(n) on both sessions (duplicate datagrams; exercises the transmit queue's buffer ownership)
 	GapAfter                int  // the client writer idles GapMs after this many writes (0 = never)
 	GapMs                   int
@@ -273,6 +274,10 @@ func vfPairSetup(cfg vfPairCfg) *vfPair {
 			panic(err)
 		}
 	})
+	if cfg.EncBack > 0 && p.client.fecEncoder != nil {
+		enc := p.client.fecEncoder
+		enc.next = enc.paws - uint32(cfg.EncBack*enc.shardSize)
+	}
 	p.tune(p.client)
 	return p
 }
